@@ -532,6 +532,8 @@ func runC06(c *Ctx) {
 	}
 	// the lexer model against zlexer.Next, token by token
 	lexStream(c, c.Scale(3000, 60000))
+	// whole texts read at header level by the model (lexer, abstract tokens, header machine) and by the parser
+	zoneTextStream(c, c.Scale(1500, 30000))
 }
 
 // substGenerate: independent expansion of $ / $$ / ${offset,width,base} / \$ for one iterator value
